@@ -40,11 +40,32 @@ SHRINK = gen_model.case_simplifications("spec")
 MARKUP_CHARS = re.compile(r"[&<>{}]|-->")
 
 
+def stagger(spec, on):
+  """two sibling paragraphs that begin 0.2 ms apart, the first one coloured: the interval in which only the first is shown has no cue
+  (both ends round to the same millisecond) and the colour is used again by the cue that follows"""
+  if not on or spec["body"] is None:
+    return spec
+  for n in gen_model.walk(spec["body"]):
+    ps = [k for k in n["kids"] if k["kind"] == "p"]
+    if len(ps) >= 2:
+      a, b = ps[0], ps[1]
+      base = a["begin"] if a["begin"] is not None else Fraction(1)
+      a["begin"], a["end"] = base + Fraction(1, 10000), None
+      b["begin"], b["end"] = base + Fraction(3, 10000), None
+      a["styles"]["Color"] = s.ColorType((18, 52, 86, 255))
+      a["styles"]["BackgroundColor"] = s.ColorType((86, 52, 18, 255))
+      a["styles"].pop("Display", None)
+      a["anims"] = []
+      break
+  return spec
+
+
 def cases(prof, cfgs, sub_ms=False):
   def strat(tier):
     eps = st.sampled_from(c06.EPS) if sub_ms else st.none()
-    return st.builds(lambda spec, mode, cfg, e, o: {"spec": c06.tiny_times(c06.shape(spec, mode), e, o), "cfg": cfg},
-                     gen_model.docspecs(prof), st.sampled_from([0, 1, 2, 3]), st.sampled_from(cfgs), eps, st.sampled_from(c06.OFFSETS))
+    return st.builds(lambda spec, mode, cfg, e, o, stg: {"spec": stagger(c06.tiny_times(c06.shape(spec, mode), e, o), stg and sub_ms), "cfg": cfg},
+                     gen_model.docspecs(prof), st.sampled_from([0, 1, 2, 3]), st.sampled_from(cfgs), eps, st.sampled_from(c06.OFFSETS),
+                     st.sampled_from([False, False, True]))
   return strat
 
 
